@@ -71,5 +71,18 @@ def run(ck):
         traces.append(perturb(ck.rng, t))
     if not ok:
         return
-    dbprops.run_db_property(ck, eng, traces, [mon_c04], with_replicas=False, nontrivial=nontrivial)
-    ck.sample({"trace": dbengine.trace_to_json(traces[2][:8])})
+    # the model side is one coqc per 1/16 of a batch; batches of 1000 traces keep each generated .v file small
+    # (a single 12000-trace batch made coqc fail on 750-trace files)
+    total = dict(traces_validated_against_impl=0, ops_total=0, panic_observations=0)
+    hist = {}
+    for lo in range(0, len(traces), 1000):
+        dbprops.run_db_property(ck, eng, traces[lo:lo + 1000], [mon_c04], with_replicas=False, nontrivial=nontrivial)
+        for k in total:
+            total[k] += ck.cov.get(k, 0)
+        for k, v in ck.cov.get("op_histogram", {}).items():
+            hist[k] = hist.get(k, 0) + v
+        if ck.violations:
+            break
+    ck.cov.update(total)
+    ck.cov["op_histogram"] = hist
+    ck.sample({"trace": dbengine.trace_to_json(traces[min(12, len(traces) - 1)][:8])})
